@@ -137,6 +137,9 @@ func evalLoad(x *ctx, cs Case, mo *modelOut) ImplResult {
 	if impl.Eff == nil {
 		return impl
 	}
+	if impl.RoutePanic != "" {
+		fail("crash-on-route-lookup", "accepted at load, then the router panics when a request arrives: "+impl.RoutePanic)
+	}
 	for _, v := range checklist(&cs.Cfg) {
 		key := "accepted-violating:" + v.key
 		switch v.key {
@@ -243,9 +246,9 @@ func judgeSmoke(x *ctx, cs Case, plan SmokePlan, crashKey string, o SmokeOutcome
 // ---------- directed probes of the findings assigned to C18 ----------
 
 const (
-	keyF4  = "F4:direct-targetonly-domain-accepted"
-	keyF12 = "F12:omitted-rejectpolicy-not-default"
-	keyF15 = "F15:unbounded-filter-size-accepted"
+	keyF4   = "F4:direct-targetonly-domain-accepted"
+	keyF12  = "F12:omitted-rejectpolicy-not-default"
+	keyF15  = "F15:unbounded-filter-size-accepted"
 	keyF20d = "F20:dup-domain-set-accepted"
 	keyF20p = "F20:dup-prefix-set-accepted"
 )
@@ -416,9 +419,13 @@ func replay(x *ctx, cs Case) error {
 	impl := evalLoad(x, cs, m)
 	if impl.Eff != nil && (cs.Kind == "smoke" || cs.Kind == "probe") {
 		mode, key := "socks", ""
+		noudp := false
 		for _, s := range cs.Cfg.Servers {
-			if s.Name == "test" && s.Proto == "direct" {
-				mode = "direct"
+			if s.Listen == "@TEST@" {
+				if s.Proto == "direct" {
+					mode = "direct"
+				}
+				noudp = s.Proto == "http"
 			}
 		}
 		switch cs.Probe {
@@ -426,12 +433,6 @@ func replay(x *ctx, cs Case) error {
 			key = keyF4
 		case "F15":
 			key = keyF15
-		}
-		noudp := false
-		for _, s := range cs.Cfg.Servers {
-			if s.Name == "test" && s.Proto == "http" {
-				noudp = true
-			}
 		}
 		if cs.Probe != "F12" && cs.Probe != "F20" && cs.Probe != "F15-replay" {
 			evalSmoke(x, cs, SmokePlan{Doc: smokeDoc(cs.Cfg), Mode: mode, NoUDP: noudp}, key)
